@@ -65,7 +65,10 @@ class HistEngine(EngineBase):
                 need += self.beh[n]
         self.tc.get(need, workers=16, quiet=False)
         self.nslots = 17
-        self.farm = ZygoteFarm(self.tc.data, self.nslots)
+        try:
+            self.farm = ZygoteFarm(self.tc.data, self.nslots)
+        except RuntimeError as e:
+            raise HarnessError("cannot construct a Compiler in the zygote: " + str(e)[-1500:])
 
     def parent_fini(self):
         if getattr(self, "farm", None) is not None:
@@ -153,6 +156,9 @@ class HistEngine(EngineBase):
             return ch.choice(self.noped, "noped")
         if r == 5 and self.noped:
             return "dep_" + ch.choice(self.noped, "noped")
+        if r == 6:
+            # the API takes any name: another instruction's name with this behaviour
+            return ch.choice(self.names, "othername")
         return name
 
     def gen_fault(self, ch: Chooser, fmt, name, parts, subs):
